@@ -35,10 +35,23 @@ def random_expr(rng, tags=None):
         if len(args) == 1 and not groups[0][0][0] and len(groups[0]) == 1:
             pass
         return ast, ["--tags=%s" % a for a in args]
+    if r < 0.62:
+        # several --tags options, one of them a disjunction of parenthesised groups: "(a and b) or (c)" starts with '(' and ends
+        # with ')' without being ONE group -- the options must still be and-ed as wholes
+        x, y, z, v = [["lit", t] for t in rng.sample(tags, 4)]
+        left = ["and", x, y] if rng.random() < 0.6 else x
+        right = ["and", z, x] if rng.random() < 0.3 else z
+        other = ["not", v] if rng.random() < 0.6 else v
+        term = "(%s) or (%s)" % (T.render_v2(left, rng, "min", False), T.render_v2(right, rng, "min", False))
+        parts = [term, T.render_v2(other, rng, "min", False)]
+        if rng.random() < 0.5:
+            parts.reverse()
+            return ["and", other, ["or", left, right]], ["--tags=%s" % t for t in parts]
+        return ["and", ["or", left, right], other], ["--tags=%s" % t for t in parts]
     ops = tags + [rng.choice(["?", "[ab]", "*", "[!a]", "w*"])]
     ast = T.random_tree(rng, ops, rng.choice([1, 1, 2]))
     if rng.random() < 0.3 and ast[0] == "and":
-        return ast, ["--tags=%s" % x for x in T.render_v2_list(ast, rng, "min", rng.random() < 0.5)]
+        return ast, ["--tags=%s" % x for x in T.render_v2_list(ast, rng, rng.choice(["min", "inner", "full", "redundant", "redundant"]), rng.random() < 0.5)]
     return ast, ["--tags=%s" % T.render_v2(ast, rng, rng.choice(["min", "full"]), rng.choice([True, False]))]
 
 
